@@ -5,7 +5,10 @@ import OV.Lemmas.IndexGather
 /-!
 # C11 — tensor indexing and slicing mean what they mean in NumPy
 
-Property theorems only.  Model: `OV.Model.Index`.
+Property theorems only.  Model: `OV.Model.Index` (the code after /repo commit e7769b9); helper
+lemmas: `OV.Lemmas.Index`, `OV.Lemmas.IndexPlan` (Slice+Squeeze fusion), `OV.Lemmas.IndexGather`
+(the Gather chain).  The two whole-expression statements are `graph_index_correct_partial` and
+`eager_index_correct_partial`.
 -/
 namespace OV.Props.C11
 open OV.Index
